@@ -258,10 +258,12 @@ def work(p):
             # the store may have been written under a larger limit than the one in force at stub time
             for k2 in spec.get("cross_k", {}).get(str(k), []):
                 # every way of choosing the rewriter: configuration (none / default chain) and the CLI switch that disables it
-                for g, rw in (([], "NoOpRewriter"), ([], "DEFAULT"), (["--disable-type-rewriting"], "DEFAULT"), (["--disable-type-rewriting"], "NoOpRewriter")):
-                    rc, text, err = cli(g + ["-c", f"vf.mon.cfg:K{k2}_{rw}", "stub", m.name])
+                for g, rw, ctx in (([], "NoOpRewriter", ""), ([], "DEFAULT", ""), (["--disable-type-rewriting"], "DEFAULT", ""), (["--disable-type-rewriting"], "NoOpRewriter", ""),
+                                   ([], "NoOpRewriter", "CTX"), ([], "DEFAULT", "CTX")):
+                    # CTX: a Config whose limit is a project setting available only inside cli_context (a larger fallback outside)
+                    rc, text, err = cli(g + ["-c", f"vf.mon.cfg:K{ctx}{k2}_{rw}", "stub", m.name])
                     res6.count("cross_limit_stubs")
-                    res6.seen("cross_limit_modes", f"{' '.join(g) or 'no-flag'}|{rw}")
+                    res6.seen("cross_limit_modes", f"{' '.join(g) or 'no-flag'}|{rw}|{ctx or 'plain'}")
                     if rc == 0:
                         judge_c06(res6, text, db, k2, dict(wit0, traced_with_limit=k, stub_limit=k2, cross_limit=True, rewriter=rw, global_flags=g),
                                   cross=f"traced at {k}, stub at {k2}, {' '.join(g) or 'no flag'}, {rw}")
